@@ -2,6 +2,7 @@ package props
 
 import (
 	"fmt"
+	"go/types"
 	"sort"
 	"strings"
 
@@ -127,6 +128,68 @@ func c02PolicyCache(c *eng.Ctx) {
 			}
 		}
 	}
+}
+
+// c02PolicyCacheKeys: every keyed operation on the policy cache (the type of
+// Store.tokenPoliciesLRU) uses, as its key, the result of Store.cacheKey — the
+// one expression readers and writers share — or a key enumerated from the
+// cache itself (namespace invalidation). A writer or remover that derives its
+// key differently (a part of the key, the bare name) leaves the entry the
+// readers find untouched.
+func c02PolicyCacheKeys(c *eng.Ctx) {
+	c.Clause("R5", "C02.7")
+	fv := c.P.Field("policy.Store.tokenPoliciesLRU")
+	if fv == nil {
+		c.Unresolved("policy.Store.tokenPoliciesLRU")
+		return
+	}
+	if c.P.Func("policy.(*Store).cacheKey") == nil {
+		c.Unresolved("policy.(*Store).cacheKey")
+		return
+	}
+	keyed := map[string]bool{"Add": true, "Remove": true, "Get": true, "Contains": true, "Peek": true, "ContainsOrAdd": true, "PeekOrAdd": true}
+	n, nWrite := 0, 0
+	for _, fn := range c.P.Funcs {
+		if !eng.InPkg(fn, "policy") {
+			continue
+		}
+		for _, b := range fn.Blocks {
+			for _, in := range b.Instrs {
+				cl, ok := in.(ssa.CallInstruction)
+				if !ok {
+					continue
+				}
+				cc := cl.Common()
+				callee := cc.StaticCallee()
+				if callee == nil || cc.IsInvoke() || len(cc.Args) < 2 || !keyed[callee.Name()] || !types.Identical(cc.Args[0].Type(), fv.Type()) {
+					continue
+				}
+				n++
+				if callee.Name() != "Get" && callee.Name() != "Contains" && callee.Name() != "Peek" {
+					nWrite++
+				}
+				top := eng.TopFunc(fn)
+				site := "key of policy cache " + callee.Name()
+				key := cc.Args[1]
+				// a key enumerated from the cache itself
+				fromKeys := true
+				roots := eng.Roots(key, nil)
+				for _, r := range roots {
+					rc, ok := r.(*ssa.Call)
+					if !ok || rc.Call.StaticCallee() == nil || rc.Call.StaticCallee().Name() != "Keys" || len(rc.Call.Args) == 0 || !types.Identical(rc.Call.Args[0].Type(), fv.Type()) {
+						fromKeys = false
+					}
+				}
+				if fromKeys && len(roots) > 0 {
+					c.OK(top, site+" (enumerated)", cl.Pos(), "key is an element of the cache's own Keys()")
+					continue
+				}
+				c.Prov(top, site, cl, key, `^call:policy\.\(\*Store\)\.cacheKey$`)
+			}
+		}
+	}
+	c.Floor(nil, "keyed operations on the policy cache", n, 6)
+	c.Floor(nil, "keyed write/remove operations on the policy cache", nWrite, 4)
 }
 
 func storageCalls(f *ssa.Function, pat string) []ssa.Instruction {
